@@ -1,4 +1,4 @@
-import sys; sys.path.insert(0,'/verif')
+import sys; sys.path.insert(0,"/verif")
 from engine import spec, verify, run
 run.load_contracts()
 import os, importlib.util
